@@ -272,8 +272,13 @@ class CylindricalSymGrid(GridBase):
     def difference_vector(
         self, p1: FloatingArray, p2: FloatingArray, *, coords: CoordsType = "grid"
     ) -> FloatingArray:
+        # the periodic axial direction is the third Cartesian coordinate
         return self._difference_vector(
-            p1, p2, coords=coords, periodic=self.periodic, axes_bounds=self.axes_bounds
+            p1,
+            p2,
+            coords=coords,
+            periodic=[False, False, self.periodic[1]],
+            axes_bounds=(None, None, self.axes_bounds[1]),  # type: ignore
         )
 
     def get_line_data(
